@@ -43,7 +43,8 @@ def uninstall():
 
 
 def functions():
-    return [iop.pbc_dist_coordinate, iop.Distance.calculate, iop.Distancevel.calculate, iop.Position.calculate,
+    import infretis.classes.engines.enginebase as ibase
+    return [ibase.EngineBase.calculate_order, iop.pbc_dist_coordinate, iop.Distance.calculate, iop.Distancevel.calculate, iop.Position.calculate,
             iop.Velocity.calculate, iop.Dihedral.calculate, iop.Puckering.calculate]
 
 
@@ -58,6 +59,9 @@ def instances(tier, prop):
     out = []
     q = tier == "quick"
     out.append({"kind": "pbc", "_cost": 50})
+    for op in ("distance", "distancevel"):
+        for form in (3, 9):
+            out.append({"kind": "engine-box", "op": op, "form": form, "_cost": 400})
     for op in ("distance", "distancevel"):
         for periodic in (False, True):
             out.append({"kind": "translate", "op": op, "periodic": periodic, "box": 3, "_cost": 100})
@@ -100,7 +104,7 @@ def instances(tier, prop):
     return out
 
 
-EXPECT = ["pbc:wrapped", "pbc:unwrapped", "translate:distance", "image:distance", "rotate:distance", "velrev:distancevel",
+EXPECT = ["engine-box:checked", "pbc:wrapped", "pbc:unwrapped", "translate:distance", "image:distance", "rotate:distance", "velrev:distancevel",
           "box9:distance", "translate:dihedral", "rotate:dihedral", "translate:puckering", "unmodified:checked"]
 
 
@@ -212,6 +216,8 @@ def run_instance(ctx, sh):
     kind = sh["kind"]
     if kind == "pbc":
         return _pbc(ctx)
+    if kind == "engine-box":
+        return _engine_box(ctx, sh)
     op = sh["op"]
     n = NATOMS[op]
     pos = _arr(ctx, "r", n)
@@ -308,6 +314,50 @@ def run_instance(ctx, sh):
             return
         ctx.check(all(_same(x, y) for x, y in zip(a, b)), "C20:accepts-3-and-9-component-boxes", op)
         ctx.cover(f"box9:{op}")
+
+
+def _engine_box(ctx, sh):
+    """engines call EngineBase.calculate_order(system, xyz, vel, box) on ONE System object for every frame: the box handed in
+    (3- or 9-component) is the one the periodic order parameter must use, whatever box the System carried before."""
+    import infretis.classes.engines.enginebase as ibase
+    from symx.stubs import ScriptEngine
+    eng = ScriptEngine(ctx, 0)
+    opf = _mk_op(sh["op"], True)
+    eng.order_function = opf
+    pos, vel = _arr(ctx, "r", 2), _arr(ctx, "v", 2)
+    LA = [ctx.real(f"LA{d}", lo=0) for d in range(3)]
+    LB = [ctx.real(f"LB{d}", lo=0) for d in range(3)]
+
+    def mk(L):
+        b = np.empty(sh["form"], dtype=object)
+        b[:3] = L
+        if sh["form"] == 9:
+            b[3:] = [qconst(0)] * 6
+        return b
+    system = System()
+    system.vel_rev = False
+    try:
+        calc = lambda s, **k: ibase.EngineBase.calculate_order(eng, s, **k)
+        first = calc(system, xyz=pos, vel=vel, box=mk(LA))
+        boxB = mk(LB)
+        second = calc(system, xyz=pos, vel=vel, box=boxB)
+        fresh = System()
+        fresh.vel_rev = False
+        ref = calc(fresh, xyz=pos, vel=vel, box=mk(LB))
+    except core.Inconclusive:
+        raise
+    except (core._Abort, core._Stop, core._Skip):
+        raise
+    except ZeroDivisionError:
+        ctx.note("degenerate-geometry-excluded")
+        raise core._Abort()
+    except Exception as e:
+        core.reraise_if_proxy_limitation(e)
+        ctx.fail("C20:no-exception", repr(e))
+    ctx.check(system.box is boxB, "C20:engine-hands-the-frame's-own-box-to-the-order-parameter", "system.box is not the box passed in")
+    ctx.check(all(_same(x, y) for x, y in zip(second, ref)), "C20:order-parameter-uses-the-frame's-own-box",
+              f"{sh['op']} with a box differing from the one the System carried before")
+    ctx.cover("engine-box:checked")
 
 
 def _pbc(ctx):
